@@ -271,7 +271,57 @@ def search(ctx, pool, parent, chain, kinds, with_d, max_states, alphabet):
         part.violation(sig, what, wit)
 
 
+def hand_histories():
+    """histories over directory STRUCTURE (which the generated worlds never change): a package marker created later"""
+    yield ('package-marker-created-above', [
+        ('write', 'a/b/__init__.py', ''), ('write', 'a/b/k.py', 'class X:\n    attr = 1\n'), ('write', 'a/b/m.py', 'from .k import X\n'),
+        ('req', 'assist', 'from .k import X\nX.', (2, 2), 'a/b/x.py'),
+        ('write', 'a/__init__.py', ''),
+        ('req', 'assist', 'from .k import X\nX.', (2, 2), 'a/b/x.py'),
+        ('req', 'location', 'from . import k\nk.X\n', (2, 3), 'a/b/x.py'),
+    ])
+    yield ('package-marker-created-below', [
+        ('write', 'p/__init__.py', ''), ('write', 'p/q/k.py', 'val = 1\n'),
+        ('req', 'assist', 'from . import k\nk.', (2, 2), 'p/q/x.py'),
+        ('write', 'p/q/__init__.py', ''),
+        ('req', 'assist', 'from . import k\nk.', (2, 2), 'p/q/x.py'),
+        ('req', 'assist', 'from .. import q\nq.', (2, 2), 'p/q/x.py'),
+    ])
+
+
+def run_hand(label, steps):
+    """-> [(sig, what)]"""
+    root = tempfile.mkdtemp(prefix='c09h_')
+    out = []
+    try:
+        reset_global_memo()
+        P = Project([root])
+        clock = 1000
+        for st in steps:
+            if st[0] == 'write':
+                fn = os.path.join(root, st[1])
+                os.makedirs(os.path.dirname(fn), exist_ok=True)
+                with open(fn, 'w') as f:
+                    f.write(st[2])
+                clock += 10
+                os.utime(fn, (clock, clock))
+            else:
+                _r, kind, src, pos, rel = st
+                x = os.path.join(root, rel)
+                got = do_request(P, (kind, src, pos), x)
+                exp = do_request(Project([root]), (kind, src, pos), x)
+                if got != exp:
+                    out.append(('stale:directory-structure:%s' % label, 'history %s: request %r from %s on the long-lived project returns %s, a fresh Project returns %s' % (
+                        label, (kind, src), rel, got[:200].replace(root, ''), exp[:200].replace(root, ''))))
+                    break
+    finally:
+        shutil.rmtree(root, ignore_errors=True)
+    return out
+
+
 def replay(w):
+    if w.get('kind') == 'hand':
+        return run_hand(w['label'], dict(hand_histories())[w['label']])
     root = tempfile.mkdtemp(prefix='c09r_')
     try:
         world = World(root, w['chain'], tuple(w['kinds']), w['with_d'])
@@ -318,6 +368,11 @@ def run(ctx):
         units.append((['a', 'b', 'c'], ('star', 'mod'), True, 20000, (8, 9, 3)))
         for ks in (('star', 'star', 'star'), ('mod', 'from', 'star'), ('from', 'mod', 'from-as')):
             units.append((['a', 'b', 'c', 'e'], ks, False, 20000, (0, 1, 3)))
+    for label, steps in hand_histories():
+        ctx.count('evaluations')
+        ctx.count('hand_histories')
+        for sig, what in run_hand(label, steps):
+            ctx.violation(sig, what, {'kind': 'hand', 'label': label})
     parent = tempfile.mkdtemp(prefix='c09_')
     try:
         with ctx.pool() as pool:
